@@ -237,8 +237,20 @@ func (dec *ttlvReader) assertType(ty Type, tag int) error {
 	return nil
 }
 
+// assertFixed checks the tag and type like assertType and additionally that the
+// declared length is the one mandated for the fixed-width type.
+func (dec *ttlvReader) assertFixed(ty Type, tag int, size int) error {
+	if err := dec.assertType(ty, tag); err != nil {
+		return err
+	}
+	if l := dec.len(); l != size {
+		return Errorf("Invalid length for tag %s of type %s. Got %d but expected %d", TagString(tag), ty, l, size)
+	}
+	return nil
+}
+
 func (dec *ttlvReader) Integer(tag int) (int32, error) {
-	if err := dec.assertType(TypeInteger, tag); err != nil {
+	if err := dec.assertFixed(TypeInteger, tag, 4); err != nil {
 		return 0, err
 	}
 	//nolint:gosec // this cast is safe as we are parsing raw bytes.
@@ -247,7 +259,7 @@ func (dec *ttlvReader) Integer(tag int) (int32, error) {
 }
 
 func (dec *ttlvReader) LongInteger(tag int) (int64, error) {
-	if err := dec.assertType(TypeLongInteger, tag); err != nil {
+	if err := dec.assertFixed(TypeLongInteger, tag, 8); err != nil {
 		return 0, err
 	}
 	//nolint:gosec // this cast is safe as we are parsing raw bytes.
@@ -256,12 +268,18 @@ func (dec *ttlvReader) LongInteger(tag int) (int64, error) {
 }
 
 func (dec *ttlvReader) BigInteger(tag int) (*big.Int, error) {
+	if err := dec.assertType(TypeBigInteger, tag); err != nil {
+		return nil, err
+	}
 	v := dec.value()
+	if len(v) == 0 {
+		return nil, Errorf("Invalid empty big integer for tag %s", TagString(tag))
+	}
 	return bytesToBigInt(v), dec.Next()
 }
 
 func (dec *ttlvReader) Enum(realtag, tag int) (uint32, error) {
-	if err := dec.assertType(TypeEnumeration, tag); err != nil {
+	if err := dec.assertFixed(TypeEnumeration, tag, 4); err != nil {
 		return 0, err
 	}
 	v := binary.BigEndian.Uint32(dec.value())
@@ -269,7 +287,7 @@ func (dec *ttlvReader) Enum(realtag, tag int) (uint32, error) {
 }
 
 func (dec *ttlvReader) Bool(tag int) (bool, error) {
-	if err := dec.assertType(TypeBoolean, tag); err != nil {
+	if err := dec.assertFixed(TypeBoolean, tag, 8); err != nil {
 		return false, err
 	}
 	v := dec.value()[7] != 0
@@ -280,7 +298,13 @@ func (dec *ttlvReader) Struct(tag int, f func(reader) error) error {
 	if err := dec.assertType(TypeStructure, tag); err != nil {
 		return err
 	}
-	if err := f(&ttlvReader{buf: dec.value()}); err != nil {
+	// The nested reader is restricted to the structure's declared extent and its
+	// first item is validated like every following one.
+	sub, err := newTTLVReader(dec.value())
+	if err != nil {
+		return err
+	}
+	if err := f(sub); err != nil {
 		return err
 	}
 	return dec.Next()
@@ -305,7 +329,7 @@ func (dec *ttlvReader) ByteString(tag int) ([]byte, error) {
 }
 
 func (dec *ttlvReader) DateTime(tag int) (time.Time, error) {
-	if err := dec.assertType(TypeDateTime, tag); err != nil {
+	if err := dec.assertFixed(TypeDateTime, tag, 8); err != nil {
 		return time.Time{}, err
 	}
 	//nolint:gosec // this cast is safe as we are parsing raw bytes.
@@ -314,7 +338,7 @@ func (dec *ttlvReader) DateTime(tag int) (time.Time, error) {
 }
 
 func (dec *ttlvReader) Interval(tag int) (time.Duration, error) {
-	if err := dec.assertType(TypeInterval, tag); err != nil {
+	if err := dec.assertFixed(TypeInterval, tag, 4); err != nil {
 		return 0, err
 	}
 	v := time.Duration(binary.BigEndian.Uint32(dec.value())) * time.Second
